@@ -513,6 +513,14 @@ pub fn check(prop: &str, tier: &str) -> i32 {
             bp.push(mk("TM-N3.0irr", variants_irr(), true, None));
             bp.push(mk("TM-B4irr", variants_irr(), true, Some(if th { 300_000 } else { 30_000 })));
         }
+        // and in the worker thread of the PARALLEL solver (one worker: deterministic; the recorders are switched on inside
+        // the worker by the width-heuristic wrapper, rec.rs): the same automaton, the sub-problem depth check and the
+        // "compiled with the width the heuristic answered" check on what parallel.rs hands to the diagrams
+        let mk1 = |name: &str, variants: Vec<Variant>, limit: Option<u64>| BPlan { fam: family(name), variants, rotate: true, cfgs: Cfg::full(&[1, 2]), mode: Mode::Plain, record: true, limit, par1: true };
+        bp.push(mk1("TM-N0.1", variants_ca(), None));
+        bp.push(mk1("TM-B4", variants_ca(), Some(if th { 8192 } else { 600 })));
+        bp.push(mk1("KP-3", variants_kp(), Some(if th { 2000 } else { 300 })));
+        if prop == "C12" { bp.push(mk1("TM-N0.0irr", variants_irr(), None)); }
         let dl = Some(Instant::now() + Duration::from_secs(cap_secs(if th { 600 } else { 20 })));
         let (agg, sc, ok) = crate::bnb::run_plans(&rep, &[prop], &bp, dl);
         cov["solver_runs_part"] = json!({"scopes": sc, "complete": ok, "runs": agg.runs, "runs_with_2+_subproblems": agg.nontrivial, "restricted_compilations": agg.restricted, "relaxed_compilations": agg.relaxed, "merges": agg.merges, "relax_calls": agg.relax_calls, "layers_checked_for_width": agg.layers_checked, "monitor_hits_all_properties": agg.monitor_hits});
